@@ -35,12 +35,14 @@ CFG = dict(
     n=dict(quick=240, thorough=6000),
     shard=dict(quick=20, thorough=100),
     rule="histories of Config.UpdateFrom calls on a fresh Config (Felix's loading order or a random order, sources "
-         "sometimes loaded twice, empty updates, empty values) over ~50 representative parameters of every type and flag "
+         "sometimes loaded twice, empty updates, empty values; in 1/5 of the cases followed by an UpdateFromConfigUpdate "
+         "message carrying the same content, a source dropped, a value replaced or an empty value) over ~50 representative parameters of every type and flag "
          "combination with valid / invalid / 'none' raw values and case-variant spellings of the names; streams: priority "
          "(1-4 parameters in 1-4 sources each), shadow (flagged parameter valid in a high source and invalid/'none' lower, "
          "and the mirror image), anyparam (any of the 218 parameters with type-agnostic raw values), variant (one source "
          "spells a parameter in 2-3 ways; run 40 times on fresh maps, every distinct outcome recorded), unknown names; the "
-         "real Parse of every (parameter, raw) pair is recorded as the parse oracle; observed: error of every call, the "
+         "real Parse of every (parameter, raw) pair is recorded as the parse oracle; observed: error of every call, Config.Err "
+         "after every call, the `changed` result / changedFields of every call whose predecessor succeeded, the "
          "rendered Config fields of the parameters involved (and of some untouched ones), RawValues(); non-trivial = a "
          "parameter set by >= 2 sources, or a local-only parameter set from a datastore source, or case-variant names in one "
          "source; distinct by the list of calls",
@@ -174,13 +176,21 @@ def run(ctx):
     def handle(failing, cases, origin):
         oracle_fail = [(i, a, o) for (i, a, o) in failing if not o]
         disagree = [(i, a, o) for (i, a, o) in failing if o and not a]
+        def cls(c):
+            # the two historical classes exist only on a tree without the respective fix (probed by the driver)
+            key = classify(c)
+            if key == KEY_SHADOW and stats.get("probe_shadow_check_before_parse", False):
+                return None
+            if key == KEY_VARIANT and stats.get("probe_deterministic_key_order", False):
+                return None
+            return key
         for (i, a, o) in oracle_fail:
-            key = classify(cases[i])
+            key = cls(cases[i])
             counts[key or "oracle"] = counts.get(key or "oracle", 0) + 1
         # smallest failing case of each class first
         for (i, a, o) in sorted(oracle_fail, key=lambda t: len(cases[t[0]]["coq"])):
             c = cases[i]
-            key = classify(c)
+            key = cls(c)
             if key and key in kf:
                 if key not in seen:
                     known_hits.append("key=%s %s" % (key, kf[key]))
@@ -267,7 +277,9 @@ MANIFEST = dict(
     text="Theorems over an executable model of Config.UpdateFrom/resolve for every parameter table, parse function, "
          "configuration and key order (the highest-priority source that sets a parameter decides its value and the error "
          "outcome; shadowed values and datastore values of local-only parameters are irrelevant; independence of the key "
-         "order), with the parameter table, source order and Source.Local() TRANSLATED from the real config package on "
+         "order: for the sorted code now in the tree for ALL inputs incl. case-variant spellings, the last spelling in byte "
+         "order wins; Config.Err is sticky; an update that leaves the raw config unchanged reports no changed field; a "
+         "ConfigUpdate message decides alone), with the parameter table, source order and Source.Local() TRANSLATED from the real config package on "
          "every run, plus a correspondence run of model and spec oracle against the real Config.UpdateFrom.",
     note="Trusted: Coq kernel; hand-written model tied to the code by the correspondence run; reflection-based translator; Go "
          "driver and its canonical rendering; Param.Parse as an oracle.",
